@@ -12,6 +12,7 @@ pub mod c12;
 pub mod c13;
 pub mod c14;
 pub mod c16;
+pub mod c18;
 pub mod c19;
 pub mod c20;
 
@@ -34,6 +35,7 @@ pub fn all() -> Vec<Check> {
         Check { info: &c13::INFO, run: c13::run },
         Check { info: &c14::INFO, run: c14::run },
         Check { info: &c16::INFO, run: c16::run },
+        Check { info: &c18::INFO, run: c18::run },
         Check { info: &c19::INFO, run: c19::run },
         Check { info: &c20::INFO, run: c20::run },
     ]
